@@ -20,8 +20,11 @@
 (* One action = one poll of the sender's current call (Op / Ps), one poll  *)
 (* of the receiver allowed k messages (Pr), or carrier + receiver running  *)
 (* to quiescence without the sender (Settle).                              *)
-(* Fixed = TRUE models the proposed fixes for the two defects of the       *)
-(* pinned tree; with Fixed = FALSE the defective steps set a tag in kf.    *)
+(* Fixed = TRUE is the code after the fix commits 4ba5020 (read buffer     *)
+(* grown for Identity(n > RBuf)) and 781835c (poll_flush Pending while a   *)
+(* frame is withheld) and is what the check verifies (StrictOK).           *)
+(* Fixed = FALSE is the earlier defective behaviour, kept as a negative    *)
+(* model for the self-test; its defective steps set a tag in kf.           *)
 (***************************************************************************)
 EXTENDS FramedPipe, FiniteSets, TLC
 
